@@ -69,6 +69,16 @@ CLAIMED = {
                 "process_attribs, line_to_variables) is not proved: a bounded differential run over 96 equivalent spellings stands in (not counted).",
         "note": "Partial: parser correctness as a whole is not provable here; the statement-kind oracle is an under-approximation of the subset.",
     },
+    "C08": {
+        "engines": ["A", "B", "Bd"],
+        "technique": "contract-based deductive verification: loop-invariant VCs for strip_paren (depth-selecting transducer) and the Associations lookups from "
+                     "their ASTs (z3); regex-language obligations on CALL_RE / SUBCALL_RE / ARITH_GOTO_RE / FORMAT_RE and the cascade order",
+        "text": "Proved: strip_paren equals the depth-selecting transducer for any line; association lookup returns the innermost binding; every CALL statement and "
+                "function reference of the supported subset reaches the call-scanning branch and is found there, masked literals never are, and FORMAT, computed "
+                "GOTO and all declaration kinds are dispatched earlier. Exactness of _add_procedure_calls over all statement forms is a property of a heuristic "
+                "scan: only a bounded run of the real pipeline over a statement grammar (55 programs) covers it, not counted.",
+        "note": "Partial: mechanisms of the scan, not exactness for every Fortran statement form.",
+    },
 }
 _NB = "no obligations built yet for this property in the current commit (planned in DESIGN.md section 6; technique not switched)"
-NOT_APPLICABLE = {p: _NB for p in ["C03", "C04", "C08", "C09", "C11", "C12", "C13", "C15", "C16", "C17", "C18", "C19", "C20"]}
+NOT_APPLICABLE = {p: _NB for p in ["C03", "C04", "C09", "C11", "C12", "C13", "C15", "C16", "C17", "C18", "C19", "C20"]}
